@@ -321,7 +321,7 @@ def cberr_source(driver, site, at, place):
 class C16(Check):
     id = "C16"
     level = "exploration"
-    horizon_ms = 20000
+    horizon_ms = 5000  # a watchdog kill is retried alone with a 20 s horizon (vlib/engine.py)
     rule = ("families nat/sub/call/op/idx/rec/prot/err as listed in checks/c16.py; (nat) = every built-in found in the std-lib "
             "sources x every argument tuple of length 0..2 (0..3 thorough for arity>=3 natives) over a 25-kind value alphabet; "
             "one call per program; non-trivial = the call/construct was reached (marker printed) and ended in a language level "
